@@ -26,7 +26,7 @@ ASSUMPTIONS = ["trusted base: the library's fresh-construction path (checked by 
                "transient states between the public setters of a compound edit are never read"]
 FLOORS = {'quick': {'fresh-compare': 4000, 'shadow': 600, 'copy-independence': 150, 'container-read': 150},
           'thorough': {'fresh-compare': 40000, 'shadow': 6000, 'copy-independence': 1500}}
-MANDATORY_TAGS = ['shared-tessellator', 'refused-edit', 'sampling:takes-the-value-of-another-direction', 'kept-sizes', 'kept-sizes:given-to-another-object', 'curve', 'surface', 'volume', 'rational', 'container', 'copy', 'op:reverse', 'op:transpose', 'op:flip', 'op:insert',
+MANDATORY_TAGS = ['kept-sizes:other-object-resized', 'shared-tessellator', 'refused-edit', 'sampling:takes-the-value-of-another-direction', 'kept-sizes', 'kept-sizes:given-to-another-object', 'curve', 'surface', 'volume', 'rational', 'container', 'copy', 'op:reverse', 'op:transpose', 'op:flip', 'op:insert',
                   'op:remove', 'op:refine', 'op:weights', 'op:ctrlpts', 'op:delta', 'op:translate', 'op:degree', 'op:knotvector',
                   'op:container-add', 'op:container-transform', 'op:container-deepcopy', 'read-mutate-read', 'op:container-delta-one-direction']
 TECHNIQUE = ("runtime monitoring: history driver with an online differential oracle (every read of a derived view vs the same read "
@@ -164,6 +164,18 @@ def check_kept_sizes(case, ctx):
         other.cpsize = o.cpsize
         pts = [[c * 2.0 + 1.0 for c in p] for p in o.ctrlpts]
         digest0 = digest(o)
+        if pdim >= 2 and rng.random() < 0.5:
+            # (sixth hunt) ... after its sizes were re-declared through the size properties (another layout of as many points)
+            ctx.tag('kept-sizes:other-object-resized')
+            szs = list(sd['sizes'])
+            szs[0], szs[1] = szs[1], szs[0]
+            if szs == list(sd['sizes']):
+                szs[0], szs[1] = szs[0] * szs[1], 1
+            try:
+                for nm_, v_ in zip(('ctrlpts_size_u', 'ctrlpts_size_v', 'ctrlpts_size_w'), szs):
+                    setattr(other, nm_, v_)
+            except Exception:
+                pass
         try:
             other.ctrlpts = pts
         except Exception:
